@@ -74,7 +74,8 @@ CHECKS.update({
               "Trusted as for C17.", "DESIGN.md 6 C18", engine="kq-trace"),
     "C19": _c("Recursive watches over trees whose sibling names share string prefixes (dir1/dir10, sub/sub2, r/a and r/ab): directories created one level at a time, inner renames, "
               "re-creation under a renamed-away name, file operations at every depth, Remove of one of two roots; every event name is compared with the entry's true current path, which the "
-              "specification maintains component-wise (Ideal!MoveDir / IsUnder).",
+              "specification maintains component-wise (Ideal!MoveDir / IsUnder). A bounded model of the recursive bookkeeping (InotifyRecurse.tla: WalkDir registration, register/updatePath, "
+              "removePath, the new-directory and moved-directory branches of handleEvent with the code's string-prefix operations) is model-checked first for all histories up to 5 (thorough: 7) steps.",
               "Trusted as for the other inotify checks. Bursts (mkdir -p) and moves across the tree boundary are not generated, as the property excludes them (a directory renamed twice, or replaced "
               "by a self-referencing link, before the reader gets to it is). What WatchList shows for a recursive watch is not judged.",
               "DESIGN.md 6 C19"),
